@@ -78,6 +78,9 @@ class Sim(object):
         self.line_points = None
         self.line_count = 0
         self.preemptions = 0
+        self.line_stall = None       # (probability at a pre-emption point, max seconds): stall the thread there instead of yielding
+        self.stalls = 0
+        self.fault_counter = None    # SimNet.count, so that scheduler-level faults are reported with the network ones
         self.log_picks = log_picks
         self._prio = {}
         self._pct_points = None
@@ -388,6 +391,17 @@ class Sim(object):
             hit = self.line_rng.random() < self.line_p
         if hit:
             self.preemptions += 1
+            st = self.line_stall
+            if st and self.line_rng.random() < st[0]:
+                # fault: the thread is descheduled at this line for a while (slow CPU, GC pause, page fault) - virtual time
+                # passes, responses arrive and timers fire while it sits between two lines, possibly holding locks
+                d = st[1] * self.line_rng.choice((0.01, 0.1, 0.3, 1.0))
+                self.stalls += 1
+                self.rec('fault', 'thread stall %s %.4fs' % (t.name, d))
+                if self.fault_counter is not None:
+                    self.fault_counter('thread_stall')
+                self.block([], d, 'line-stall')
+                return
             t.state = RUNNABLE
             t.why = 'line'
             self._park()
